@@ -37,9 +37,14 @@ class FactoryRun:
 
         delay = spec.get("startDelay")
 
-        async def run_body(task_status: Any) -> None:
+        async def run_body(task_status: Any, called_in: Any = None) -> None:
             ctx = current_context()
             parent = ctx.parent
+            if called_in is not None and called_in is not ctx:
+                # the synchronous part of the task callable and the coroutine it returns belong to one task:
+                # both run in the task's own context
+                run.log("probeFailed", h, "the task callable was called outside the task's own context "
+                                          "(current_context() differed between the call and the coroutine it returned)")
             if run.factory_ctx is None:
                 run.factory_ctx = parent
             ok = parent is run.factory_ctx and parent is not None and parent.parent is run.owner
@@ -79,6 +84,10 @@ class FactoryRun:
         if delay:
             async def body(*, task_status: Any) -> None:
                 await run_body(task_status)
+        elif h % 3 == 0:
+            # the `lambda: coro_fn(args)` idiom: a plain callable that returns the coroutine
+            def body() -> Any:  # type: ignore[misc]
+                return run_body(None, current_context())
         else:
             async def body() -> None:  # type: ignore[misc]
                 await run_body(None)
